@@ -5,8 +5,8 @@ import KrakenModel.Model.Poll
    implementation returned.
 
    cfg  entry=cluster|poll dst=plain|seek pre=<bytes> pos=<n> blob=<bytes> bo=<n> resolve=ok|err
-   origin <resp,…>                      script of the next origin (`-` = empty); net | s<code> | c<k> | full | k<k> | fullc
-                                        (c/full: Content-Length announced; k/fullc: streamed without Content-Length)
+   origin <resp,…>                      script of the next origin (`-` = empty); net | s<code> | c<k> | full | k<k> | fullc | e<k>
+                                        (c/full: Content-Length announced; k/fullc: streamed chunked; e: delimited by connection close only)
    op download => <result> dst=<bytes> pos=<n> reqs=<n,…>
 -/
 open Driver KrakenModel.Poll
@@ -28,6 +28,7 @@ def resp? (t : String) : Option Resp :=
     | 's' :: ds => (String.ofList ds).toNat?.bind fun c => if c = 200 then none else some (.status c)
     | 'c' :: ds => (String.ofList ds).toNat?.map (.cut · false)
     | 'k' :: ds => (String.ofList ds).toNat?.map (.cut · true)
+    | 'e' :: ds => (String.ofList ds).toNat?.map .eof
     | _ => none
 
 def script? (t : String) : Option (List Resp) := (list? t).mapM resp?
@@ -78,10 +79,15 @@ def step (s : St) (kind : String) (args impl : List String) : Option (St × Step
         let want := s.dst0.write s.cfg.blob
         let got := (kv? rest "dst").bind bytes?
         let reqs := ((kv? rest "reqs").bind natList?).getD []
+        let used := consumed s.origins reqs
+        -- a close-delimited body cut short cannot be told from a complete one by any HTTP client
+        let shortEof := used.any fun r => match r with | .eof k => k < s.cfg.blob.length | _ => false
+        let key1 := if shortEof then "close-delimited-short-body" else "ok-dst-not-blob-once"
+        let key2 := if shortEof then "close-delimited-short-body" else "ok-without-delivery"
         (if got ≠ some want.data then
-          [s!"side=impl key=ok-dst-not-blob-once download succeeded but the destination holds {(got.map List.length).getD 0} bytes, exactly-once gives {want.data.length}"] else []) ++
-        (if s.resolveOk ∧ !(consumed s.origins reqs).any (·.delivers s.cfg.blob.length) then
-          ["side=impl key=ok-without-delivery download succeeded although no contacted origin delivered the whole blob"] else [])
+          [s!"side=impl key={key1} download succeeded but the destination holds {(got.map List.length).getD 0} bytes, exactly-once gives {want.data.length}"] else []) ++
+        (if s.resolveOk ∧ !used.any (·.delivers s.cfg.blob.length) then
+          [s!"side=impl key={key2} download succeeded although no contacted origin delivered the whole blob"] else [])
       | _ => []
     let kindT := match s.dst0.kind with | .plain => "plain" | .seek => "seek"
     let dirty : Bool := st.trace.length > 0 ∧ st.dst.data ≠ s.dst0.data ∧ r ≠ .ok
